@@ -303,8 +303,10 @@ def run_round(sc: Scenario, fail: set, mode: str, nproc: int, batch: Batch | Non
                 outcomes[tid * 8 + j] = FAIL7
                 toks.append("x")
             else:
+                # the seventh value (the search's final direction) is not used by the merge: a search object that does not
+                # report one is as successful as one that does
                 outcomes[tid * 8 + j] = (np.array(ts[0]), ts[1], np.array(plus[0]), plus[1],
-                                         np.array(minus[0]), minus[1], -1.0)
+                                         np.array(minus[0]), minus[1], None if (tid + j) % 3 == 0 else -1.0)
                 toks.append("+".join(impl.t(x) for x in (ts, plus, minus)) if batch is not None else "")
         if batch is not None:
             batch.send(f"script {p[0]}:{p[1]} " + (",".join(toks) if toks else "-"), "ok",
